@@ -3005,6 +3005,10 @@ class x86_mn(x86_mn_base):
             if self.mnemo_mode == u16:
                 # 16 bit mode detected
                 prefix.append(0x66)
+                for a in args_eval:
+                    # 65408 and -128 are the same 16-bit immediate
+                    if is_imm(a) and type(a.get(x86_afs.imm)) is int and 0x8000 <= a[x86_afs.imm] < 0x10000:
+                        a[x86_afs.imm] = uint16(a[x86_afs.imm])
                 if  name in ["movzx", "movsx"]:
                     if args_eval[0][x86_afs.size] == u16:
                         args_eval[0][x86_afs.size] = u32
